@@ -521,6 +521,8 @@ func registerJSONDecoderModel(e *Engine) {
 						if s, isS := x.(string); isS && isString(st.Field(i).Type()) {
 							sv[i] = Str{S: s}
 						} else if x != nil {
+							*obj = sv
+							*pp = obj
 							return in.newError(fr, "json: cannot unmarshal into field "+name)
 						}
 					}
@@ -529,6 +531,10 @@ func registerJSONDecoderModel(e *Engine) {
 			*obj = sv
 			*pp = obj
 		default:
+			// the real decoder allocates the pointee before it reports the type mismatch
+			obj := new(Val)
+			*obj = in.zero(pt.Elem())
+			*pp = obj
 			return in.newError(fr, "json: cannot unmarshal value into struct")
 		}
 		return Iface{}
